@@ -2,6 +2,7 @@ package rules
 
 import (
 	"go/ast"
+	"go/token"
 	"go/types"
 
 	"verif/checker/internal/astx"
@@ -62,8 +63,8 @@ func (c *Ctx) amwLike() map[*types.Func]bool {
 
 func c05(c *Ctx) {
 	r := c.R
-	r.Explanation = "Partial: (A1) every HTTP write handler acknowledges (returns without an error answer or a hand-off to the leader) only on paths that pass the nil-error edge of applyMessageWait for the proposal they built; (A2) applyMessageWait returns nil only after the raft future completed without error and the FSM response is not an error, with no goroutine hand-off; (A3) raft's log store, stable store and snapshot store are the LevelDB/file stores under -raftdir and FSM.store is that same log store; the stores are opened from files. Fail-over, restart and exactly-once-everywhere behaviour of raft + LevelDB under faults are not decided."
-	r.Rules = []string{"C05.A1 ack-after-commit", "C05.A2 commit means committed-and-applied", "C05.A3 durable wiring"}
+	r.Explanation = "Partial: (A1) every HTTP write handler acknowledges (returns without an error answer or a hand-off to the leader) only on paths that pass the nil-error edge of applyMessageWait for the proposal they built; (A2) applyMessageWait returns nil only after the raft future completed without error and the FSM response is not an error, with no goroutine hand-off; (A3) raft's log store, stable store and snapshot store are the LevelDB/file stores under -raftdir and FSM.store is that same log store; the stores are opened from files. (A4) the delivery loop of GetMessages hands a batch to the connection only on the false edge of 'batch older than the client's position' and after advancing the position to it. Fail-over, restart and exactly-once-everywhere behaviour of raft + LevelDB under faults are not decided."
+	r.Rules = []string{"C05.A1 ack-after-commit", "C05.A2 commit means committed-and-applied", "C05.A3 durable wiring", "C05.A4 delivery loop never goes backwards"}
 	r.Assumptions = []string{"hashicorp/raft and goleveldb honour their documented durability contracts"}
 
 	amw := c.amwLike()
@@ -215,6 +216,120 @@ func c05(c *Ctx) {
 
 	c.c05A2()
 	c.c05A3()
+	c.c05A4()
+}
+
+// c05A4: the delivery loop hands a batch to the client connection only when it is not older than the client's position,
+// and advances the position before it does ("delivers that message exactly once").
+func (c *Ctx) c05A4() {
+	r := c.R
+	gm := c.MustFunc("api.(*HTTP).getMessages")
+	if gm == nil {
+		return
+	}
+	info := gm.Info()
+	g := c.Graph(gm)
+	// the position parameter: the robust.Id typed parameter
+	var pos types.Object
+	for _, fld := range gm.FuncType().Params.List {
+		for _, nm := range fld.Names {
+			if o := info.Defs[nm]; o != nil && astx.IsNamed(o.Type(), pathRobust, "Id") {
+				pos = o
+			}
+		}
+	}
+	if pos == nil {
+		r.Break("C05.A4: getMessages has no robust.Id parameter")
+		return
+	}
+	// the GetNext call and the variable holding its result
+	var next *ast.CallExpr
+	var res types.Object
+	ast.Inspect(gm.Body(), func(n ast.Node) bool {
+		as, ok := n.(*ast.AssignStmt)
+		if !ok || len(as.Lhs) != 1 || len(as.Rhs) != 1 {
+			return true
+		}
+		call, ok := ast.Unparen(as.Rhs[0]).(*ast.CallExpr)
+		if !ok {
+			return true
+		}
+		if fn := astx.Callee(info, call); fn != nil && isFunc(fn, "outputstream", "(*OutputStream).GetNext") {
+			if id, ok := as.Lhs[0].(*ast.Ident); ok {
+				next, res = call, astx.Obj(info, id)
+			}
+		}
+		return true
+	})
+	if next == nil || res == nil {
+		r.Break("C05.A4: no `x = output.GetNext(...)` in getMessages")
+		return
+	}
+	nextV := g.VertexOf(next)
+	rooted := func(e ast.Expr, o types.Object) bool {
+		b := astx.BaseIdent(e)
+		return b != nil && astx.Obj(info, b) == o
+	}
+	n := 0
+	for _, v := range g.Nodes() {
+		send, ok := v.Node.(*ast.SendStmt)
+		if !ok || !astx.Mentions(info, send.Value, res) {
+			continue
+		}
+		// only sends that GetNext's result can reach
+		if !g.Reach(nextV, nil, nil)[v.ID] {
+			continue
+		}
+		n++
+		fresh := false
+		for _, fct := range g.FactsAt(v.ID) {
+			be, ok := ast.Unparen(fct.Expr).(*ast.BinaryExpr)
+			if !ok || fct.Tag != nil {
+				continue
+			}
+			op := be.Op
+			x, y := be.X, be.Y
+			if rooted(y, res) && rooted(x, pos) {
+				// normalise to  result OP position
+				x, y = y, x
+				switch op {
+				case token.LSS:
+					op = token.GTR
+				case token.LEQ:
+					op = token.GEQ
+				case token.GTR:
+					op = token.LSS
+				case token.GEQ:
+					op = token.LEQ
+				}
+			}
+			if !rooted(x, res) || !rooted(y, pos) {
+				continue
+			}
+			if ((op == token.LSS || op == token.LEQ) && !fct.Val) || ((op == token.GTR || op == token.GEQ) && fct.Val) {
+				fresh = true
+			}
+		}
+		r.Check(fresh, "C05.A4", gm.Name(), "a batch is delivered only if it is not older than the client's position", c.P.Pos(send.Pos()), "the send is dominated by the false edge of <batch id> < <position>",
+			"a batch returned by GetNext is handed to the client although it may be older than what the client has already seen (a node that is behind after a restart or fail-over): messages are delivered twice")
+		// the position advances to the delivered batch on every path from GetNext to the send
+		adv := func(x int) bool {
+			as, ok := g.V[x].Node.(*ast.AssignStmt)
+			if !ok {
+				return false
+			}
+			for i, l := range as.Lhs {
+				if id, ok := l.(*ast.Ident); ok && astx.Obj(info, id) == pos && len(as.Rhs) == len(as.Lhs) && rooted(as.Rhs[i], res) {
+					return true
+				}
+			}
+			return false
+		}
+		skipped := g.Reach(nextV, adv, nil)[v.ID]
+		r.Check(!skipped, "C05.A4", gm.Name(), "the position advances to the batch before it is delivered", c.P.Pos(send.Pos()), "<position> = <batch>[0].Id on every path from GetNext to the send",
+			"a batch is delivered without the position being advanced to it: the next GetNext returns the same batch again and the client receives it repeatedly")
+	}
+	r.Check(n >= 1, "C05.A4", gm.Name(), "delivery sends found", c.P.Pos(gm.Node().Pos()), itoa(n), "no send of a GetNext result found in getMessages")
 }
 
 func litSummary(info *types.Info, cl *ast.CompositeLit) string {
